@@ -161,7 +161,8 @@ func (s *Sequencer) GetNextBatch(ctx context.Context, req coresequencer.GetNextB
 		}
 	}
 OuterLoop:
-	for size < maxBytes {
+	// a carry-over tx that did not fit comes first in the next batch: never scan past it
+	for size < maxBytes && len(s.pendingTxs.list) == 0 {
 		// if we have exceeded maxHeightDrift, stop fetching more transactions
 		if nextDAHeight > lastDAHeight+s.maxHeightDrift {
 			s.logger.Debug("exceeded max height drift, stopping fetching more transactions")
@@ -174,6 +175,11 @@ OuterLoop:
 			s.logger.Warn("failed to retrieve transactions from DA layer via helper", "error", res.Message)
 			break OuterLoop
 		}
+		if res.Code == coreda.StatusHeightFromFuture {
+			// the DA layer has not reached this height yet: it is not an empty height,
+			// leave the scan position here and retry in the next call
+			break OuterLoop
+		}
 		if len(res.Data) == 0 { // TODO: some heights may not have  blobs, find a better way to handle this
 			// stop fetching more transactions and return the current batch
 			s.logger.Debug("no transactions to retrieve from DA layer via helper for", "height", nextDAHeight)
@@ -184,6 +190,8 @@ OuterLoop:
 				if size+txSize >= maxBytes {
 					// Push remaining transactions back to the queue
 					s.pendingTxs.Push(res.Data[i:], res.IDs[i:], res.Timestamp)
+					// this height is consumed: what was not released is in the queue
+					nextDAHeight++
 					break OuterLoop
 				}
 				resp.Batch.Transactions = append(resp.Batch.Transactions, tx)
